@@ -275,4 +275,18 @@ CHECKS = {
                      "I/O through a fid that was walked in place while open is not asserted (the property text does not determine its meaning), only that nothing panics",
                      "Dir.Length in listings/stat is not compared (the property does not mention it)"],
     ),
+    "C15": dict(
+        pkg="ufsx",
+        level="exploration",
+        groups=[G("^TestC15_Confine$", 400, 3000)],
+        rule="temp layout top/{outside.txt, exportx, export-evil/..., other/etc, export/...}; histories of up to 30 (thorough 60) operations on SFileSys(ufs.NewServer(top/export)) from fids bound at "
+             "depths 0..3: walk / create / rename (wstat name) with names from a hostile alphabet ('..', '.', '', '../x', '../outside.txt', '../export-evil/secret.txt', '/etc/passwd', 'a/../../x', "
+             "'..\\x', '\\', NUL, 300-byte names, '../' x 40, chains of '..' longer than the depth followed by an outside target) in every name-carrying field, plus open/read/write/chmod/truncate/"
+             "remove/list on whatever got bound, incl. attempts on the root. No symlinks are created. Oracle after every step: the snapshot (names, types, perms, sizes, contents, inodes, mtimes) of everything "
+             "under top but outside top/export is unchanged; top/export is still the same inode; no returned qid path is the inode of an outside object; no read returned the outside sentinel. "
+             "Non-trivial = a hostile name (containing '..', a separator, NUL, empty, '.' or over-long) was used.",
+        require_classes=dict(quick=["hostile_name_used", "empty_export"], thorough=[]),
+        assumptions=["decided on this kernel/file system, running as root; symbolic links are outside the guarantee and never created",
+                     "a bare stat() outside the export that leaves no trace in any result is not observable by this check"],
+    ),
 }
